@@ -104,7 +104,11 @@ def run(ctx: Ctx):
     closes = [n for n in ast.walk(pw.node) if isinstance(n, ast.BinOp) and isinstance(n.op, ast.Mult) and const_str(n.left) == ")"]
     okpw = okpw and bool(closes) and norm(closes[0].right) == "len(conds) - 1"
     anchor = any(isinstance(n, ast.For) and norm(n.iter) == "zip(conds, exprs)" for n in ast.walk(pw.node))
-    if not anchor and any("Conditional(" in fr for fr in frs):
+    try:
+        in_value = any("Conditional(" in t_ for t_ in _u11.strings_in(_u11.value_of(ctx, pw)))
+    except Exception:
+        in_value = False
+    if not anchor and (any("Conditional(" in fr for fr in frs) or in_value):
         ctx.undecided("R11.a", pw.key("nesting"), "the nested Conditional(...) text is not built by the known loop over zip(conds, exprs); pairing and closing parentheses are not judged", pw.where())
     else:
         ctx.check(okpw, "R11.a", pw.key("nesting"), "nested Conditional(c, e, Conditional(...)) closed once per pair", "writer _print_Piecewise: pairs are not written as nested Conditional(c, e, ...) with the default as last argument", pw.where())
@@ -117,6 +121,8 @@ def run(ctx: Ctx):
     for _c, leaf in _brpw(pwv):
         if leaf[0] == "raise" or _av11.has_unk(leaf):
             continue
+        if any(c_[0] == "not" and c_[1][0] == "slice" and c_[1][3] == _av11.C(-1) for c_ in _c):
+            continue  # the path of a Piecewise with the default branch only (sympy folds those away before printing)
         if not any("Conditional(" in t_ for t_ in _u11.strings_in(leaf)):
             odd.append(leaf)
     ctx.check(not odd, "R11.a", pw.key("always-conditional"), "every path writes Conditional(...)", f"writer _print_Piecewise returns `{_av11.show(odd[0])[:100] if odd else ''}` on some path, which is not a Conditional(...) text: a Piecewise saved in another form is not read back as the same Piecewise in every context", pw.where())
